@@ -37,6 +37,11 @@ theorem chunksTiling_isTiling (chunks : List Nat) :
   have := chunksTilingFrom_chain chunks 0
   simpa [chunksTiling] using this
 
+/-- the regular destination tiling `Tiles((N, ·), (n, ·))` is a tiling of `[0, N)` (ragged last tile) -/
+theorem regularTiling_isTiling (N n : Nat) (hn : 0 < n) : Chain 0 (regularTiling N n) N := by
+  have := regularTiling_chain_aux N n hn ((N + n - 1) / n) 0 (by omega)
+  simpa [regularTiling, List.range_eq_range'] using this
+
 /-! ## assemble = window of the mosaic -/
 
 /-- `BlockAssembler.extract` over the blocks of the selected source tiles, in the clipped
@@ -94,6 +99,23 @@ theorem chunked_eq_whole_nn (c : Cfg) (G : Gdal) (src buf : Img)
     cases hs : samplePix (c.S.inv * c.D) c.srcH c.srcW d with
     | none => trivial
     | some s => exact hcomplete iy ix d hiy hix s hs
+
+/-- the same at the level of `xr_reproject`: whatever `nodata` attribute, `src_nodata=` and
+`dst_nodata=` arguments the caller gives, the pair handed down satisfies the nodata hypothesis,
+so dask-backed and numpy-backed inputs give the same pixels. -/
+theorem chunked_eq_whole_xr (c : Cfg) (G : Gdal) (src buf : Img) (attr kw dst : Option Val)
+    (hsn : c.srcNd = (xrNodata attr kw dst).1) (hdn : c.dstNd = (xrNodata attr kw dst).2)
+    (hV : c.variant = Variant.repaired)
+    (hbuf : WF buf c.dstH c.dstW)
+    (hsy : Chain 0 c.sy c.srcH) (hsx : Chain 0 c.sx c.srcW)
+    (hdy : Chain 0 c.dy c.dstH) (hdx : Chain 0 c.dx c.dstW)
+    (hS : c.S.det ≠ 0)
+    (hvalid : DepsValid c) (hcomplete : deps_complete c)
+    (hnd1 : NodataOk c.kind c.dstNd) (hnd2 : NodataOk c.kind c.srcNd)
+    (d : Int × Int) (hd : 0 ≤ d.1 ∧ d.1 < c.dstH ∧ 0 ≤ d.2 ∧ d.2 < c.dstW) :
+    daskResult c G src d = wholeResult c G src buf d :=
+  chunked_eq_whole_nn c G src buf hV hbuf hsy hsx hdy hdx hS hvalid hcomplete
+    (by rw [hsn, hdn]; exact xrNodata_guarantee attr kw dst) hnd1 hnd2 d hd
 
 /-! ## fill -/
 
